@@ -39,6 +39,9 @@ impl BoundingBox {
     #[verifier::external_body] pub fn width(&self) -> (r: R32) ensures val(r) == val(self.x2) - val(self.x1) { unimplemented!() }
     #[verifier::external_body] pub fn height(&self) -> (r: R32) ensures val(r) == val(self.y2) - val(self.y1) { unimplemented!() }
     #[verifier::external_body] pub fn center(&self) -> (r: (R32, R32)) ensures val(r.0) == (val(self.x1) + val(self.x2)) / 2real && val(r.1) == (val(self.y1) + val(self.y2)) / 2real { unimplemented!() }
+    /// proved in U-geom (C08.translate)
+    #[verifier::external_body] pub fn translated(&self, dx: R32, dy: R32) -> (r: BoundingBox)
+        ensures val(r.x1) == val(self.x1) + val(dx) && val(r.x2) == val(self.x2) + val(dx) && val(r.y1) == val(self.y1) + val(dy) && val(r.y2) == val(self.y2) + val(dy) { unimplemented!() }
     #[verifier::external_body] pub fn locspec(&self, ls: LocSpec) -> (r: (R32, R32))
         ensures ls is TopLeft ==> r.0 == self.x1 && r.1 == self.y1, ls is BottomRight ==> r.0 == self.x2 && r.1 == self.y2 { unimplemented!() }
 }
@@ -142,7 +145,9 @@ impl Position {
 //@       && ((self.xmin is Some || self.xmax is Some || self.cx is Some || self.dx is Some) ==> written(m, "cx"@, (val(b.x1) + val(b.x2)) / 2real + or0(self.dx)))
 //@       && ((self.ymin is Some || self.ymax is Some || self.cy is Some || self.dy is Some) ==> written(m, "cy"@, (val(b.y1) + val(b.y2)) / 2real + or0(self.dy))) })     @@C11.native.values.circle
 //@ - to_bbox_spec(*self) is Some && old(element).name@ == "ellipse"@ ==> ({ let b = to_bbox_spec(*self)->Some_0; let m = final(element).attrs@;
-//@       written(m, "rx"@, (val(b.x2) - val(b.x1)) / 2real) && written(m, "ry"@, (val(b.y2) - val(b.y1)) / 2real) })     @@C11.native.values.ellipse
+//@       written(m, "rx"@, (val(b.x2) - val(b.x1)) / 2real) && written(m, "ry"@, (val(b.y2) - val(b.y1)) / 2real)
+//@       && ((self.xmin is Some || self.xmax is Some || self.cx is Some || self.dx is Some) ==> written(m, "cx"@, (val(b.x1) + val(b.x2)) / 2real + or0(self.dx)))
+//@       && ((self.ymin is Some || self.ymax is Some || self.cy is Some || self.dy is Some) ==> written(m, "cy"@, (val(b.y1) + val(b.y2)) / 2real + or0(self.dy))) })     @@C11.native.values.ellipse
 //@ - to_bbox_spec(*self) is Some && old(element).name@ == "line"@ ==> ({ let b = to_bbox_spec(*self)->Some_0; let m = final(element).attrs@; let o = old(element).attrs@;
 //@       (!o.dom().contains("x1"@) ==> written(m, "x1"@, val(b.x1) + or0(self.dx)))
 //@       && (!o.dom().contains("y1"@) ==> written(m, "y1"@, val(b.y1) + or0(self.dy)))
